@@ -247,6 +247,88 @@ pub fn run(rep: &mut Report, backend: Bk, thorough: bool) {
         }
     }
 
+    // an admin's commit whose group-data extension is raw bytes: hostile bytes (a refusal leaves the group as it was,
+    // whatever state the receiver is in), and the same fields under another format version number (the version is
+    // group data too: an honest admin operation afterwards changes exactly the field it names)
+    {
+        let full_of = |c: &Client| -> Option<(u64, String)> {
+            let mut o = c.group_obs(&gid)?;
+            o.messages.clear();
+            Some((o.mls.as_ref().map(|m| m.epoch).unwrap_or(0), serde_json::to_string(&o).unwrap_or_default()))
+        };
+        let a = idle("A");
+        let base_ext = with_mdk!(a, m => m.load_mls_group(&gid)).ok().flatten().and_then(|g| mdk_core::extension::NostrGroupDataExtension::from_group(&g).ok());
+        if let Some(base_ext) = base_ext {
+            let mut menu: Vec<(String, Vec<u8>)> = crate::shapes::hostile_group_data(&base_ext, if thorough { 3 } else { 40 });
+            if !thorough {
+                menu.retain(|(l, _)| l.starts_with("truncated") || ["trailing-byte", "image_key-5-bytes", "image_nonce-13-bytes", "version-0", "name-invalid-utf8", "relay-not-a-url"].contains(&l.as_str()));
+            }
+            for v in [1u16, 3, 7] {
+                let mut r = crate::shapes::RawExt::of(&base_ext);
+                r.version = v;
+                menu.push((format!("same-fields-version-{v}"), r.encode()));
+            }
+            for (label, bytes) in menu {
+                let Ok(ev) = raw_commit(&a.fork(), &gid, &CommitContent::RawGroupData(bytes), &pk_of, None, now_ts - 5) else {
+                    rep.outcome(&format!("not-buildable:admin:raw-group-data:{label}"));
+                    continue;
+                };
+                for (rrole, rname) in &receivers {
+                    let mut bases: Vec<(&str, Client)> = vec![("idle", idle(rname))];
+                    if *rname == "B" {
+                        bases.push(("own-pending-commit", root.clients["B"].fork()));
+                    }
+                    let mut queued_base = idle(rname);
+                    let _ = queued_base.process(&w.pool[leave].event);
+                    if queued_base.group_obs(&gid).map(|o| o.pending_commit).unwrap_or(false) {
+                        let _ = with_mdk!(queued_base, m => m.clear_pending_commit(&gid));
+                    }
+                    bases.push(("foreign-proposal-queued", queued_base));
+                    for (blabel, bc) in &bases {
+                        let r = bc.fork();
+                        let Some((e0, before)) = full_of(&r) else { continue };
+                        let res = std::panic::catch_unwind(std::panic::AssertUnwindSafe(|| r.process(&ev)));
+                        let rk = match &res {
+                            Ok(x) => result_kind(x),
+                            Err(_) => "PANIC".into(),
+                        };
+                        let after = std::panic::catch_unwind(std::panic::AssertUnwindSafe(|| full_of(&r))).ok().flatten();
+                        let kind = if label.starts_with("truncated") { "truncated".to_string() } else { label.clone() };
+                        rep.case(&format!("raw-group-data|{kind}|{rrole}|{blabel}|{rk}"));
+                        let accepted = rk == "Commit" && after.as_ref().map(|(e, _)| *e > e0).unwrap_or(false);
+                        if rk == "PANIC" || after.is_none() {
+                            rep.finding(format!("C05|admin-raw-group-data|{kind}|receiver={rrole}|base={blabel}|panic-or-unreadable-state"), format!("admin A's commit with group data {label}: receiver {rname} ({blabel}) answers {rk}; the state cannot be read afterwards or the call panicked"), json!({"mutation": label, "result": rk, "backend": format!("{backend:?}")}));
+                            continue;
+                        }
+                        let (_, after) = after.unwrap();
+                        if !accepted && before != after {
+                            rep.finding(format!("C05|refused-commit-changed-state|sender=admin|content=raw-group-data:{kind}|receiver={rrole}|base={blabel}"), format!("admin A's commit with group data {label}: receiver {rname} ({blabel}) answers {rk} but its group changed"), json!({"mutation": label, "result": rk, "before": before, "after": after, "backend": format!("{backend:?}")}));
+                            continue;
+                        }
+                        if accepted && *rname == "B" && *blabel == "idle" {
+                            // B, an admin, renames the group it now holds: nothing but the name changes
+                            let ext_of = |c: &Client| -> Option<Value> { c.group_obs(&gid).and_then(|o| o.mls).and_then(|m| serde_json::from_str::<Value>(&m.ext).ok()) };
+                            let Some(e_before) = ext_of(&r) else { continue };
+                            if with_mdk!(r, m => m.update_group_data(&gid, NostrGroupDataUpdate::new().name("renamed-afterwards"))).is_err() {
+                                rep.outcome(&format!("raw-group-data:{kind}:rename-afterwards-refused"));
+                                continue;
+                            }
+                            let _ = with_mdk!(r, m => m.merge_pending_commit(&gid));
+                            let Some(e_after) = ext_of(&r) else { continue };
+                            let changed: Vec<String> = e_before.as_object().map(|o| o.keys().filter(|k| e_before[k.as_str()] != e_after[k.as_str()]).cloned().collect()).unwrap_or_default();
+                            rep.case(&format!("raw-group-data|{kind}|rename-afterwards|changed={changed:?}"));
+                            if changed != vec!["name".to_string()] {
+                                rep.finding(format!("C05|admin-operation-changed-more-than-it-names|update_group_data(name)|group-data={kind}|changed={}", changed.join("+")), format!("group data {label} in force; admin B renames the group with update_group_data: fields {changed:?} changed"), json!({"mutation": label, "before": e_before, "after": e_after, "backend": format!("{backend:?}")}));
+                            }
+                        }
+                    }
+                }
+            }
+        } else {
+            rep.machinery_errors.push("c05: cannot read the group-data extension of the sender".into());
+        }
+    }
+
     // the member a Remove commit names is a receiver too: it leaves the group iff the author is an admin
     for (srole, sname) in &sender_roles {
         if *srole == "removed-member-stale-state" {
